@@ -11,7 +11,9 @@ pub mod c06;
 pub mod c18;
 pub mod c19;
 pub mod c08;
+pub mod c07;
 pub mod smoke;
+pub mod exp;
 pub mod c01;
 pub mod c02;
 pub mod c03;
@@ -42,6 +44,7 @@ pub fn plan(id: &str, tier: &str) -> Option<Plan> {
         "C18" => Some(Plan::new(if _t { 40 } else { 12 }, 1500)),
         "C19" => Some(Plan::new(if _t { 40 } else { 12 }, 1500)),
         "C08" => Some(Plan::new(if _t { 48 } else { 12 }, 1500)),
+        "C07" => Some(Plan::new(if _t { 40 } else { 12 }, 1500)),
         _ => None,
     }
 }
@@ -58,6 +61,7 @@ pub fn spec(id: &str) -> Option<Spec> {
         "C18" => Some(c18::spec()),
         "C19" => Some(c19::spec()),
         "C08" => Some(c08::spec()),
+        "C07" => Some(c07::spec()),
         _ => None,
     }
 }
@@ -74,6 +78,7 @@ pub fn worker(ctx: &WorkerCtx) -> WorkerReport {
         "C18" => c18::worker(ctx),
         "C19" => c19::worker(ctx),
         "C08" => c08::worker(ctx),
+        "C07" => c07::worker(ctx),
         other => {
             let mut r = WorkerReport::default();
             r.inconclusive(format!("no worker for {}", other));
